@@ -234,6 +234,7 @@ def gen_random(rng, thorough):
               same_stage=rng.random() < 0.8, prod_rep=rng.random() < 0.75, check_out=rng.random() < 0.9,
               has_delay=rng.random() < 0.35, interval=rng.choice([5000, 7000, 10000, 12000, 30000]),
               t0=rng.choice([0, 1000, 100000, 123456]))
+    cfg['extra_prod'] = rng.choice([None, None, 'first', 'last'])
     n = rng.randint(3, 20 if thorough else 14)
     notify_at = rng.choice([None] + list(range(n)) * 3)
     steps = []
@@ -298,7 +299,7 @@ def run(ctx):
     ctx.count('corpus_cases', len(cases))
     grid = [CFG(retries=r, interval=iv) for r in (0, 1, 3) for iv in (5000, 12000)]
     grid += [CFG(retries=5, interval=5000), CFG(retries=1, prod_rep=False), CFG(retries=1, has_prod=False),
-             CFG(retries=1, same_stage=False)]
+             CFG(retries=1, same_stage=False), CFG(retries=1, extra_prod='last'), CFG(retries=1, extra_prod='first')]
     N = 9 if thorough else 6
     ex = []
     small = [grid[1], grid[2], grid[5], grid[6], grid[7]]
